@@ -49,6 +49,29 @@ func (q PathQuery) evalBool(v ssa.Value, n *pnode, depth int) (val, known bool) 
 	if a, ok := q.Assume[v]; ok {
 		return a, true
 	}
+	// a value that a branch on the way here already decided (not a phi: phis are
+	// resolved by the path below)
+	if _, isPhi := v.(*ssa.Phi); !isPhi {
+		if _, isConst := v.(*ssa.Const); !isConst {
+			var def *ssa.BasicBlock
+			if in, ok := v.(ssa.Instruction); ok {
+				def = in.Block()
+			}
+			for m := n; m != nil && m.prev != nil; m = m.prev {
+				if def != nil && m.b == def {
+					break // v is (re)defined here: what earlier edges said is about an older value
+				}
+				if f, ok := EdgeFact(m.prev.b, m.b); ok {
+					if f.SaysBool(v, true) {
+						return true, true
+					}
+					if f.SaysBool(v, false) {
+						return false, true
+					}
+				}
+			}
+		}
+	}
 	switch x := v.(type) {
 	case *ssa.UnOp:
 		if x.Op == token.NOT {
@@ -65,16 +88,21 @@ func (q PathQuery) evalBool(v ssa.Value, n *pnode, depth int) (val, known bool) 
 				r, k := q.evalBool(x.Y, n, depth+1)
 				return (r == cb) == (x.Op == token.EQL), k
 			}
-			if IsNilConst(x.Y) && len(q.NonNil) > 0 {
+			if IsNilConst(x.Y) {
 				if q.NonNil[x.X] {
 					return x.Op == token.NEQ, true
 				}
-				if rv := q.resolvePhi(x.X, n, 0); rv != nil {
+				if rv, pos := q.resolvePhiAt(x.X, n, 0); rv != nil {
 					if IsNilConst(rv) {
 						return x.Op == token.EQL, true
 					}
 					if q.nonNilValue(rv, 0) {
 						return x.Op == token.NEQ, true
+					}
+					// the same value was already tested on the way here (typically by an
+					// inlined helper that then returned it): the second test agrees
+					if isNil, known := pathNilFact(rv, pos); known {
+						return isNil == (x.Op == token.EQL), true
 					}
 				}
 			}
@@ -129,6 +157,29 @@ func (q PathQuery) resolvePhiAt(v ssa.Value, n *pnode, depth int) (ssa.Value, *p
 func (q PathQuery) resolvePhi(v ssa.Value, n *pnode, depth int) ssa.Value {
 	r, _ := q.resolvePhiAt(v, n, depth)
 	return r
+}
+
+// pathNilFact looks, along the path walked to n, for a branch that tested v
+// against nil after v was last defined.
+func pathNilFact(v ssa.Value, n *pnode) (isNil bool, known bool) {
+	var def *ssa.BasicBlock
+	if in, ok := v.(ssa.Instruction); ok {
+		def = in.Block()
+	}
+	for m := n; m != nil && m.prev != nil; m = m.prev {
+		if def != nil && m.b == def {
+			break // v is (re)defined here: what earlier edges said is about an older value
+		}
+		if f, ok := EdgeFact(m.prev.b, m.b); ok {
+			if f.SaysNil(v) {
+				return true, true
+			}
+			if f.SaysNotNil(v) {
+				return false, true
+			}
+		}
+	}
+	return false, false
 }
 
 // nonNilValue: v is assumed non-nil, or is an error built from such a value
@@ -342,6 +393,14 @@ func (q PathQuery) Find() []ssa.Instruction {
 				incomplete = true
 				continue
 			}
+			// k-limiting: a third pass through a loop none of whose branch
+			// conditions can be evaluated on this path repeats the second one —
+			// the search state (assumptions, resolved phis) is the same — so it is
+			// not explored and does not count as incompleteness. Loops with an
+			// evaluable condition (trip counts over literals) keep the full bound.
+			if visits[s] >= 2 && !q.cycleEvaluable(n, s) {
+				continue
+			}
 			nn := &pnode{b: s, prev: n}
 			g, cut := scan(s, 0)
 			if g != nil {
@@ -375,6 +434,24 @@ func (q PathQuery) Find() []ssa.Instruction {
 	}
 	// phase B: path-insensitive fallback
 	return q.bfs(start, scan, build)
+}
+
+// cycleEvaluable: walking back from n to the previous visit of s, some branch
+// condition on the way was decided by evalCond.
+func (q PathQuery) cycleEvaluable(n *pnode, s *ssa.BasicBlock) bool {
+	for p := n; p != nil; p = p.prev {
+		if len(p.b.Instrs) > 0 {
+			if ifi, ok := p.b.Instrs[len(p.b.Instrs)-1].(*ssa.If); ok {
+				if _, known := q.evalCond(ifi.Cond, p); known {
+					return true
+				}
+			}
+		}
+		if p.b == s {
+			return false
+		}
+	}
+	return true
 }
 
 // bfs is the path-insensitive search (only Prune is honoured).
